@@ -311,10 +311,14 @@ def Store.setCol (s : Store) (c : Col) : Store :=
   | some i => { s with cols := s.cols.setIfInBounds i c }
   | none => s
 
-/-- `NewCollection`: default capacity 1024, the `expire` column -/
+/-- the default merge of an `int64` column: wrapping addition (`ForInt64()` without options) -/
+def addMerge64 : Bytes → Bytes → Bytes := fun v d => natToBE 8 ((beNat v + beNat d) % 2 ^ 64)
+
+/-- `NewCollection`: default capacity 1024, the `expire` column (a plain `ForInt64()` column: merges add,
+    which is what `TTL.Extend` relies on) -/
 def Store.new (cap : Nat) (logger : LoggerKind) (hash : Bytes → Nat) : Store :=
   let cap := if cap > 0 then cap else 1024
-  let expire : Col := (Col.grow { name := "expire", kind := .num .i64 } cap)
+  let expire : Col := (Col.grow { name := "expire", kind := .num .i64, merge := addMerge64 } cap)
   { cap := cap, cols := #[expire], logger := logger, hash := hash }
 
 /-- `CreateColumn` (after the repair: the new column covers every allocated chunk) -/
